@@ -8,10 +8,17 @@ import (
 	"strings"
 )
 
-// raceReports parses the race detector's log of THIS process (GORACE=log_path=…) into the set of (top frame, top frame)
-// pairs of the two conflicting accesses.  Empty when not built with -race or no race was reported.
-func raceReports() map[string]int {
-	out := map[string]int{}
+type raceRep struct {
+	pair    string // first non-runtime frame of each of the two conflicting accesses
+	globals bool   // one of the two access stacks passes through package mjml/globals (the process-wide attribute store)
+	n       int
+}
+
+var raceHdr = regexp.MustCompile(`(?m)^(?:Read|Write|Previous read|Previous write|Atomic read|Atomic write|Previous atomic read|Previous atomic write) at `)
+
+// raceReports parses the race detector's log of THIS process (GORACE=log_path=…).  Empty when not built with -race or
+// when no race was reported.
+func raceReports() []raceRep {
 	lp := ""
 	for _, kv := range strings.Fields(os.Getenv("GORACE")) {
 		if strings.HasPrefix(kv, "log_path=") {
@@ -19,35 +26,54 @@ func raceReports() map[string]int {
 		}
 	}
 	if lp == "" {
-		return out
+		return nil
 	}
 	b, err := os.ReadFile(fmt.Sprintf("%s.%d", lp, os.Getpid()))
 	if err != nil {
-		return out
+		return nil
 	}
-	frame := regexp.MustCompile(`(?m)^(?:Read|Write|Previous read|Previous write|Atomic read|Atomic write|Previous atomic read|Previous atomic write) at .*\n\s+(\S+)\(`)
+	agg := map[string]*raceRep{}
+	frame := regexp.MustCompile(`(?m)^\s+(\S+)\(\)\s*$`)
 	for _, blk := range strings.Split(string(b), "==================") {
 		if !strings.Contains(blk, "DATA RACE") {
 			continue
 		}
+		// cut at the first "Goroutine … created at": only the two access stacks matter
+		if i := strings.Index(blk, "\nGoroutine "); i >= 0 {
+			blk = blk[:i]
+		}
+		locs := raceHdr.FindAllStringIndex(blk, -1)
 		var tops []string
-		for _, m := range frame.FindAllStringSubmatch(blk, -1) {
-			f := m[1]
-			f = strings.TrimPrefix(f, "github.com/preslavrachev/gomjml/")
-			tops = append(tops, f)
+		glob := false
+		for i, l := range locs {
+			end := len(blk)
+			if i+1 < len(locs) {
+				end = locs[i+1][0]
+			}
+			top := ""
+			for _, m := range frame.FindAllStringSubmatch(blk[l[1]:end], -1) {
+				f := strings.TrimPrefix(m[1], "github.com/preslavrachev/gomjml/")
+				if strings.HasPrefix(f, "mjml/globals.") {
+					glob = true
+				}
+				if top == "" && !strings.HasPrefix(f, "runtime.") && !strings.HasPrefix(f, "internal/") {
+					top = f
+				}
+			}
+			tops = append(tops, top)
 		}
 		sort.Strings(tops)
-		out[strings.Join(tops, " <-> ")]++
-	}
-	return out
-}
-
-// raceOnGlobalsOnly reports whether both sides of a race pair touch only the process-wide attribute store.
-func raceOnGlobalsOnly(pair string) bool {
-	for _, f := range strings.Split(pair, " <-> ") {
-		if !strings.HasPrefix(f, "mjml/globals.") {
-			return false
+		k := strings.Join(tops, " <-> ")
+		if agg[k] == nil {
+			agg[k] = &raceRep{pair: k}
 		}
+		agg[k].n++
+		agg[k].globals = agg[k].globals || glob
 	}
-	return true
+	var out []raceRep
+	for _, r := range agg {
+		out = append(out, *r)
+	}
+	sort.Slice(out, func(i, j int) bool { return out[i].pair < out[j].pair })
+	return out
 }
